@@ -60,3 +60,228 @@ Proof.
   - apply parse_loop_no_diverge; try discriminate; unfold zlength, PartsCap; cbn [length]; lia.
 Qed.
 
+
+(* ====================================================================== *)
+(* Round trip: ParseSecrets (Secrets parts) = parts                        *)
+(* ====================================================================== *)
+
+(* the flat layout produced by Secrets: each part preceded by its length *)
+Fixpoint flat (parts : list (list Z)) : list Z :=
+  match parts with
+  | [] => []
+  | p :: t => zlength p :: p ++ flat t
+  end.
+
+Lemma zlength_nonneg {A} (l : list A) : 0 <= zlength l.
+Proof. unfold zlength. lia. Qed.
+
+Lemma zlength_app {A} (l1 l2 : list A) : zlength (l1 ++ l2) = zlength l1 + zlength l2.
+Proof. unfold zlength. rewrite app_length. lia. Qed.
+
+Lemma zlength_to_nat {A} (l : list A) : Z.to_nat (zlength l) = length l.
+Proof. unfold zlength. lia. Qed.
+
+Lemma zlength_rev {A} (l : list A) : zlength (rev l) = zlength l.
+Proof. unfold zlength. rewrite rev_length. reflexivity. Qed.
+
+Lemma flat_app a b : flat (a ++ b) = flat a ++ flat b.
+Proof.
+  induction a as [|p t IH]; [reflexivity|].
+  cbn [app flat]. rewrite IH, <- app_assoc. reflexivity.
+Qed.
+
+Lemma flat_length_ge parts : (length parts <= length (flat parts))%nat.
+Proof.
+  induction parts as [|p t IH]; [cbn; lia|].
+  cbn [flat length]. rewrite app_length. lia.
+Qed.
+
+Lemma secrets_loop_spec parts secrets :
+  secrets_loop parts = Ok secrets ->
+  secrets = flat parts /\ Forall (fun p => zlength p <= MaxPartSize) parts.
+Proof.
+  revert secrets. induction parts as [|p t IH]; intros secrets H.
+  - cbn [secrets_loop] in H. injection H as <-. split; [reflexivity|constructor].
+  - cbn [secrets_loop] in H.
+    destruct (MaxPartSize <? zlength p) eqn:E; [discriminate|]. apply Z.ltb_ge in E.
+    destruct (secrets_loop t) as [r| | |]; cbn [obind] in H; try discriminate.
+    injection H as <-. destruct (IH r eq_refl) as [-> HF].
+    split; [reflexivity|constructor; assumption].
+Qed.
+
+Lemma builder_secrets_spec parts secrets :
+  builder_secrets parts = Ok secrets ->
+  secrets = flat parts /\ Forall (fun p => zlength p <= MaxPartSize) parts /\
+  zlength parts <= PartsCap.
+Proof.
+  unfold builder_secrets. destruct (PartsCap <? zlength parts) eqn:E; [discriminate|].
+  apply Z.ltb_ge in E. intros H. apply secrets_loop_spec in H. tauto.
+Qed.
+
+(* conversely Secrets succeeds on every input within the two caps *)
+Lemma builder_secrets_complete parts :
+  Forall (fun p => zlength p <= MaxPartSize) parts -> zlength parts <= PartsCap ->
+  builder_secrets parts = Ok (flat parts).
+Proof.
+  intros HF Hc. unfold builder_secrets.
+  destruct (PartsCap <? zlength parts) eqn:E; [apply Z.ltb_lt in E; lia|]. clear E Hc.
+  induction HF as [|p t Hp HF IH]; [reflexivity|].
+  cbn [secrets_loop flat]. destruct (MaxPartSize <? zlength p) eqn:E; [apply Z.ltb_lt in E; lia|].
+  rewrite IH. reflexivity.
+Qed.
+
+Lemma slice_middle {A} (a p b : list A) :
+  slice (a ++ p ++ b) (zlength a) (zlength a + zlength p) = p.
+Proof.
+  unfold slice. replace (zlength a + zlength p - zlength a) with (zlength p) by lia.
+  rewrite !zlength_to_nat, skipn_app, skipn_all, Nat.sub_diag. cbn [app skipn].
+  rewrite firstn_app, firstn_all, Nat.sub_diag. cbn [firstn]. apply app_nil_r.
+Qed.
+
+(* Loop invariant: [done] are the parts already read (accumulated reversed),
+   [el] is the length of their flat layout, [todo] remain to be read. *)
+Lemma parse_loop_roundtrip : forall todo done fuel nl,
+  Forall (fun p => zlength p <= MaxPartSize) todo ->
+  zlength done + zlength todo <= PartsCap ->
+  (2 * length todo + 1 <= fuel)%nat ->
+  parse_loop fuel (flat done ++ flat todo) (zlength (flat done)) nl true (rev done)
+  = Ok (done ++ todo).
+Proof.
+  induction todo as [|p t IH]; intros done fuel nl HF Hcap Hfuel.
+  - destruct fuel as [|k]; [cbn in Hfuel; lia|]. cbn [parse_loop flat].
+    rewrite !app_nil_r, Z.ltb_irrefl. cbn [negb]. rewrite rev_involutive. reflexivity.
+  - destruct fuel as [|[|k]]; [cbn in Hfuel; lia|cbn in Hfuel; lia|].
+    cbn [length] in Hfuel.
+    inversion HF as [|? ? Hp HF']; subst.
+    rewrite zlength_cons in Hcap.
+    pose proof (zlength_nonneg p) as Hp0. pose proof (zlength_nonneg (flat done)) as Hd0.
+    pose proof (zlength_nonneg (flat t)) as Ht0. pose proof (zlength_nonneg t) as Htl0.
+    pose proof (zlength_nonneg done) as Hdl0.
+    set (secrets := flat done ++ flat (p :: t)).
+    assert (Hlen : zlength secrets = zlength (flat done) + 1 + zlength p + zlength (flat t)).
+    { unfold secrets. cbn [flat]. rewrite zlength_app, zlength_cons, zlength_app. lia. }
+    (* step 1: read the length element *)
+    cbn [parse_loop]. fold secrets. rewrite Hlen.
+    destruct (zlength (flat done) <? zlength (flat done) + 1 + zlength p + zlength (flat t)) eqn:E1;
+      [|apply Z.ltb_ge in E1; lia]. cbn [negb].
+    destruct (zlength (flat done) <? 0) eqn:E2; [apply Z.ltb_lt in E2; lia|].
+    assert (Hnth : nth (Z.to_nat (zlength (flat done))) secrets 0 = zlength p).
+    { unfold secrets. rewrite zlength_to_nat, app_nth2, Nat.sub_diag by lia. reflexivity. }
+    rewrite Hnth.
+    assert (Hle : is_len_elem (zlength p) = true).
+    { unfold is_len_elem. apply andb_true_iff. split; [apply Z.leb_le; lia|apply Z.ltb_lt].
+      unfold MaxPartSize in Hp. lia. }
+    rewrite Hle. cbn [negb].
+    destruct (MaxPartSize <? zlength p) eqn:E3; [apply Z.ltb_lt in E3; lia|].
+    (* step 2: slice the part (or stop on a trailing empty part) *)
+    destruct (zlength (flat done) + 1 <? zlength (flat done) + 1 + zlength p + zlength (flat t)) eqn:E4;
+      cbn [negb].
+    + apply Z.ltb_lt in E4.
+      destruct (zlength (flat done) + 1 <? 0) eqn:E5; [apply Z.ltb_lt in E5; lia|].
+      rewrite zlength_rev.
+      destruct (PartsCap <=? zlength done) eqn:E6; [apply Z.leb_le in E6; lia|].
+      destruct (zlength (flat done) + 1 + zlength p + zlength (flat t) <? zlength (flat done) + 1 + zlength p) eqn:E7;
+        [apply Z.ltb_lt in E7; lia|].
+      destruct (zlength (flat done) + 1 + zlength p <? zlength (flat done) + 1) eqn:E8;
+        [apply Z.ltb_lt in E8; lia|].
+      assert (Hsl : slice secrets (zlength (flat done) + 1) (zlength (flat done) + 1 + zlength p) = p).
+      { unfold secrets. cbn [flat].
+        replace (flat done ++ zlength p :: p ++ flat t)
+          with ((flat done ++ [zlength p]) ++ p ++ flat t) by (rewrite <- app_assoc; reflexivity).
+        replace (zlength (flat done) + 1) with (zlength (flat done ++ [zlength p]))
+          by (rewrite zlength_app; reflexivity).
+        apply slice_middle. }
+      rewrite Hsl.
+      specialize (IH (done ++ [p]) k (zlength p) HF').
+      assert (Hfl : flat (done ++ [p]) = flat done ++ zlength p :: p)
+        by (rewrite flat_app; cbn [flat]; rewrite app_nil_r; reflexivity).
+      assert (Hz : zlength (flat done ++ zlength p :: p) = zlength (flat done) + 1 + zlength p)
+        by (rewrite zlength_app, zlength_cons; lia).
+      rewrite Hfl, Hz, rev_app_distr, <- !app_assoc in IH. cbn [rev app] in IH.
+      unfold secrets. cbn [flat]. apply IH.
+      * rewrite zlength_app. change (zlength [p]) with 1. lia.
+      * lia.
+    + apply Z.ltb_ge in E4.
+      assert (Hpz : zlength p = 0) by lia. assert (Htz : zlength (flat t) = 0) by lia.
+      assert (p = []) as -> by (destruct p; [reflexivity|rewrite zlength_cons in Hpz; pose proof (zlength_nonneg p); lia]).
+      assert (t = []) as ->.
+      { destruct t as [|p' t']; [reflexivity|]. cbn [flat] in Htz. rewrite zlength_cons in Htz.
+        pose proof (zlength_nonneg (p' ++ flat t')). lia. }
+      change (zlength []) with 0. cbn [Z.eqb negb].
+      rewrite zlength_rev.
+      destruct (PartsCap <=? zlength done) eqn:E6; [apply Z.leb_le in E6; lia|].
+      cbn [rev]. rewrite rev_involutive. reflexivity.
+Qed.
+
+Theorem builder_roundtrip : forall parts secrets,
+  builder_secrets parts = Ok secrets -> (2 <= length secrets)%nat ->
+  parse_secrets secrets = Ok parts.
+Proof.
+  intros parts secrets H Hlen. apply builder_secrets_spec in H. destruct H as (-> & HF & Hcap).
+  unfold parse_secrets.
+  destruct (zlength (flat parts) <? 2) eqn:E; [apply Z.ltb_lt in E; unfold zlength in E; lia|].
+  apply (parse_loop_roundtrip parts [] _ 0 HF).
+  - change (zlength (@nil (list Z))) with 0. lia.
+  - pose proof (flat_length_ge parts). lia.
+Qed.
+
+(* without the side condition: the only inputs of Secrets whose output has
+   fewer than 2 elements are [] and [[]], and ParseSecrets rejects those *)
+Theorem builder_roundtrip_short : forall parts secrets,
+  builder_secrets parts = Ok secrets -> (length secrets < 2)%nat ->
+  (parts = [] \/ parts = [[]]) /\ parse_secrets secrets = Err.
+Proof.
+  intros parts secrets H Hlen. apply builder_secrets_spec in H. destruct H as (-> & _ & _).
+  split.
+  - destruct parts as [|p t]; [left; reflexivity|right].
+    cbn [flat length] in Hlen. rewrite app_length in Hlen.
+    destruct p; [|cbn [length] in Hlen; lia].
+    destruct t as [|p' t']; [reflexivity|]. cbn [flat length app] in Hlen. lia.
+  - unfold parse_secrets. destruct (zlength (flat parts) <? 2) eqn:E; [reflexivity|].
+    apply Z.ltb_ge in E. unfold zlength in E. lia.
+Qed.
+
+(* ParseSecrets never returns more than PartsCap parts *)
+Lemma parse_loop_cap fuel secrets el nextLen isLen acc parts :
+  zlength acc <= PartsCap ->
+  parse_loop fuel secrets el nextLen isLen acc = Ok parts -> zlength parts <= PartsCap.
+Proof.
+  revert el nextLen isLen acc. induction fuel as [|k IH]; intros el nextLen isLen acc Hacc H;
+    cbn [parse_loop] in H; [discriminate|].
+  destruct (negb (el <? zlength secrets)).
+  { destruct isLen.
+    - injection H as <-. rewrite zlength_rev. exact Hacc.
+    - destruct (negb (nextLen =? 0)); [discriminate|].
+      destruct (PartsCap <=? zlength acc) eqn:Ec; [discriminate|]. apply Z.leb_gt in Ec.
+      injection H as <-. rewrite zlength_app, zlength_rev. change (zlength [@nil Z]) with 1. lia. }
+  destruct (el <? 0); [discriminate|].
+  destruct isLen.
+  - destruct (negb (is_len_elem _)); [discriminate|].
+    destruct (MaxPartSize <? _); [discriminate|].
+    apply (IH _ _ _ _ Hacc H).
+  - destruct (PartsCap <=? zlength acc) eqn:Ec; [discriminate|]. apply Z.leb_gt in Ec.
+    destruct (zlength secrets <? el + nextLen); [discriminate|].
+    destruct (el + nextLen <? el); [discriminate|].
+    eapply IH; [|exact H]. rewrite zlength_cons. lia.
+Qed.
+
+Theorem parse_rejects_long secrets parts :
+  parse_secrets secrets = Ok parts -> zlength parts <= PartsCap.
+Proof.
+  unfold parse_secrets. destruct (zlength secrets <? 2); [discriminate|].
+  apply parse_loop_cap. change (zlength (@nil (list Z))) with 0. unfold PartsCap. lia.
+Qed.
+
+Example builder_roundtrip_ex :
+  builder_secrets [[1; 2]; []; [7]] = Ok [2; 1; 2; 0; 1; 7] /\
+  parse_secrets [2; 1; 2; 0; 1; 7] = Ok [[1; 2]; []; [7]] /\
+  builder_secrets [[5]; []] = Ok [1; 5; 0] /\
+  parse_secrets [1; 5; 0] = Ok [[5]; []] /\
+  builder_secrets [[1]; [2]; [3]; [4]] = Err /\
+  parse_secrets [1; 1; 1; 2; 1; 3; 1; 4] = Err /\
+  parse_secrets [0] = Err.
+Proof. vm_compute. repeat split; reflexivity. Qed.
+
+Print Assumptions builder_roundtrip.
+Print Assumptions builder_roundtrip_short.
+Print Assumptions parse_rejects_long.
